@@ -197,6 +197,12 @@ M("c02.ghash.clmul.aggregate", "C02", GHC, "        clmult(&r1, &r2, xm2, expand
 M("c01.ghash.clmul.multx", "C01", GHC, "    r = (msb ^ 1) - 1;", "    r = msb - 1;", "K-pw|c|ghash.clmul")
 M("c16.ghash.clmul.len16", "C16", GHC, "    len16 = len ^ (len & 0x3F);", "    len16 = len ^ (len & 0x1F);", "K-pw|c|ghash.clmul")
 M("c16.twin.ghash.clmul.cross", "C16", GHC, "    e = _mm_clmulepi64_si128(a, b, 0x10);   /* A0*B1 */\n    f = _mm_clmulepi64_si128(a, b, 0x01);   /* A1*B0 */", "    e = _mm_clmulepi64_si128(a, b, 0x01);\n    f = _mm_clmulepi64_si128(a, b, 0x10);", twin=True)
+CIPH = "lib/Crypto/Cipher/"
+M("c01.aead.eax.omac2", "C01", CIPH + "_mode_eax.py", "            for i in range(3):\n                tag = strxor(tag, self._omac[i].digest())\n            self._mac_tag = tag[:self._mac_len]\n\n        return self._mac_tag", "            for i in range(2):\n                tag = strxor(tag, self._omac[i].digest())\n            self._mac_tag = tag[:self._mac_len]\n\n        return self._mac_tag", "K-pw|aead.eax")
+M("c02.aead.gcm.lens", "C02", CIPH + "_mode_gcm.py", "        self._update(long_to_bytes(8 * self._auth_len, 8))\n        self._update(long_to_bytes(8 * self._msg_len, 8))", "        self._update(long_to_bytes(8 * self._msg_len, 8))\n        self._update(long_to_bytes(8 * self._auth_len, 8))", "K-pw|aead.gcm")
+M("c01.aead.siv.nonce.order", "C01", CIPH + "_mode_siv.py", "            self._kdf.update(self.nonce)\n        self._kdf.update(plaintext)", "            pass\n        self._kdf.update(plaintext)\n        if hasattr(self, 'nonce'):\n            self._kdf.update(self.nonce)", "K-pw|aead.siv")
+M("c02.aead.ccm.s0", "C02", CIPH + "_mode_ccm.py", "        self._s_0 = self._cipher.encrypt(b'\\x00' * 16)", "        self._s_0 = self._cipher.encrypt(b'\\x00' * 16)\n        self._cipher.encrypt(b'\\x00' * 16)", "K-pw|aead.ccm")
+M("c09.aead.gcm.cache", "C09", CIPH + "_mode_gcm.py", "        self._msg_len += len(plaintext)", "        self._msg_len = len(plaintext)", "SEG|aead.gcm")
 OCBC = "src/raw_ocb.c"
 M("c02.ocb.double.const", "C02", OCBC, "(carry & 0x87)", "(carry & 0x86)", "K-pw|c|ocb.crypt")
 M("c01.ocb.checksum.pad", "C01", OCBC, "        state->checksum[in_len] ^= 0x80;", "        state->checksum[in_len] |= 0x80;", "K-pw|c|ocb.crypt")
